@@ -1,0 +1,11 @@
+//go:build verif
+
+// Contracts for /verif (build tag "verif"): //@ comment blocks only.
+package arm64
+
+//@ prop C05 C12
+// The machine is reused for every function: Reset clears all per-function state, so that compiled code
+// does not depend on what was compiled before.
+//@ func (m *machine) Reset()
+//@   ensures[per-function-state-cleared] m.spillSlotSize == 0 && m.maxRequiredStackSizeForCalls == 0 && m.jmpTableTargetsNext == 0 && len(m.pendingInstructions) == 0 && len(m.unresolvedAddressModes) == 0 && len(m.orderedSSABlockLabelPos) == 0 && !m.regAllocStarted && m.rootInstr == nil && m.perBlockHead == nil && m.perBlockEnd == nil
+//@   nosafety
